@@ -229,17 +229,61 @@ def r20_3(chk):
     body = [unparse(s).replace(" ", "") for s in body_without_doc(f.node)]
     ok = body == [f"self.neighbors[{o}]=None", f"{o}.neighbors[self]=None", "self._update()", f"return{o}"]
     chk.inst("R20.3", f"{f.ref}", ok, "links both ways, then updates routes, returns the right operand (so chains link consecutive pairs)" if ok else f"{body}", loc(f, f.node))
-    # Node.path
+    # Node.path — accepted idioms: `while True: step; append; if reached: break` and `while not reached: step; append`
     f = repo.func(NODE, "Node.path")
     g = f.params()[1]
+    body = body_without_doc(f.node)
     txt = unparse(f.node).replace(" ", "")
-    ok = f"if{g}==self.name:\nreturn[self]".replace(" ", "") in txt.replace("    ", "") and f"if{g}notinself.routes:" in txt and f"raiseValueError" in txt \
-        and f"obj=obj.routes[{g}].direction" in txt and f"ifobj.name=={g}:" in txt
-    chk.inst("R20.3", f"{f.ref}", ok, "own name → [self]; unknown goal → ValueError; otherwise follows routes[goal].direction hop by hop" if ok else "path() changed", loc(f, f.node))
+    guard_own = any(isinstance(s_, ast.If) and unparse(s_.test).replace(" ", "") in (f"{g}==self.name", f"self.name=={g}")
+                    and unparse(s_.body[-1]).replace(" ", "") == "return[self]" for s_ in body)
+    guard_unknown = any(isinstance(s_, ast.If) and unparse(s_.test).replace(" ", "") == f"{g}notinself.routes"
+                        and isinstance(s_.body[-1], ast.Raise) for s_ in body)
+    loops = [s_ for s_ in body if isinstance(s_, ast.While)]
+    ok = guard_own and guard_unknown and len(loops) == 1
+    if ok:
+        w = loops[0]
+        wb = [unparse(x).replace(" ", "") for x in w.body]
+        cur = None
+        for x in w.body:
+            if isinstance(x, ast.Assign) and isinstance(x.targets[0], ast.Name) and unparse(x.value).replace(" ", "") == f"{unparse(x.targets[0])}.routes[{g}].direction":
+                cur = unparse(x.targets[0])
+        lst = [unparse(x.value.func.value) for x in w.body if isinstance(x, ast.Expr) and isinstance(x.value, ast.Call) and isinstance(x.value.func, ast.Attribute)
+               and x.value.func.attr == "append" and cur and unparse(x.value.args[0]) == cur]
+        test = unparse(w.test).replace(" ", "")
+        if test == "True":
+            stop = any(isinstance(x, ast.If) and unparse(x.test).replace(" ", "") in (f"{cur}.name=={g}", f"{g}=={cur}.name") and isinstance(x.body[-1], ast.Break) and not x.orelse
+                       for x in w.body) and isinstance(w.body[-1], ast.If)
+        else:
+            stop = test in (f"{cur}.name!={g}", f"{g}!={cur}.name", f"not{cur}.name=={g}") and not any(isinstance(x, (ast.Break, ast.Continue)) for y in w.body for x in ast.walk(y))
+        starts = any(isinstance(s_, ast.Assign) and unparse(s_.targets[0]) == cur and unparse(s_.value) == "self" for s_ in body)
+        seeded = bool(lst) and any(isinstance(s_, ast.Assign) and unparse(s_.targets[0]) == lst[0] and unparse(s_.value).replace(" ", "") in (f"[{cur}]", "[self]") for s_ in body)
+        returns = bool(lst) and isinstance(body[-1], ast.Return) and unparse(body[-1].value) == lst[0]
+        first = [i for i, x in enumerate(w.body) if isinstance(x, ast.Assign) and unparse(x.targets[0]) == cur]
+        app = [i for i, x in enumerate(w.body) if isinstance(x, ast.Expr) and "append" in unparse(x)]
+        ok = bool(cur and lst and stop and starts and seeded and returns and first and app and first[0] < app[0] and not w.orelse)
+    chk.inst("R20.3", f"{f.ref}", ok, "own name → [self]; unknown goal → ValueError; otherwise follows routes[goal].direction hop by hop until the goal" if ok else "path() changed", loc(f, f.node))
+    # Node.steps — accepted idioms: index loop over range(len(path) - 1); zip(path[:-1], path[1:]) / zip(path, path[1:])
     f = repo.func(NODE, "Node.steps")
-    txt = unparse(f.node).replace(" ", "")
-    ok = f"path=self.path({f.params()[1]})" in txt and "foriinrange(len(path)-1):" in txt and "yield(path[i],path[i+1])" in txt
-    chk.inst("R20.3", f"{f.ref}", ok, "consecutive pairs of the path" if ok else "steps() changed", loc(f, f.node))
+    body = body_without_doc(f.node)
+    g = f.params()[1]
+    pname = [unparse(s_.targets[0]) for s_ in body if isinstance(s_, ast.Assign) and unparse(s_.value).replace(" ", "") == f"self.path({g})"]
+    ok = len(pname) == 1
+    if ok:
+        P = pname[0]
+        rest = [s_ for s_ in body if not (isinstance(s_, ast.Assign) and unparse(s_.targets[0]) == P)]
+        zips = (f"zip({P}[:-1],{P}[1:])", f"zip({P},{P}[1:])")
+        ok = False
+        if len(rest) == 1 and isinstance(rest[0], ast.For) and not rest[0].orelse and len(rest[0].body) == 1 and isinstance(rest[0].body[0], ast.Expr) \
+                and isinstance(rest[0].body[0].value, ast.Yield):
+            fr, y = rest[0], unparse(rest[0].body[0].value.value).replace(" ", "").strip("()")
+            it, tg = unparse(fr.iter).replace(" ", ""), unparse(fr.target).replace(" ", "").strip("()")
+            if it == f"range(len({P})-1)" and y == f"{P}[{tg}],{P}[{tg}+1]":
+                ok = True
+            elif it in zips and y == tg and "," in tg:
+                ok = True
+        elif len(rest) == 1 and isinstance(rest[0], ast.Expr) and isinstance(rest[0].value, ast.YieldFrom) and unparse(rest[0].value.value).replace(" ", "") in zips:
+            ok = True
+    chk.inst("R20.3", f"{f.ref}", ok, "consecutive pairs of the path, lazily" if ok else "steps() changed", loc(f, f.node))
     chk.floor("R20.3", 6 + 3 + 3 + 3)
 
 
